@@ -242,19 +242,24 @@ def construct_type(pydsdl, t, built):
     raise ValueError(k)
 
 
-def construct_universe(pydsdl, u):
+def construct_universe(pydsdl, u, doc_rng=None):
+    """doc_rng: if given, attributes and composites get random doc strings (docs never take part in equality)."""
     built = []
+
+    def doc():
+        return "" if doc_rng is None or doc_rng.random() < 0.4 else "doc %d" % doc_rng.randrange(1000)
+
     for d in u:
         attrs = []
         for f in d["fields"]:
             if "pad" in f:
-                attrs.append(pydsdl.PaddingField(pydsdl.VoidType(f["pad"])))
+                attrs.append(pydsdl.PaddingField(pydsdl.VoidType(f["pad"]), doc()))
             else:
-                attrs.append(pydsdl.Field(construct_type(pydsdl, f["type"], built), f["name"]))
+                attrs.append(pydsdl.Field(construct_type(pydsdl, f["type"], built), f["name"], doc()))
         cls = pydsdl.UnionType if d["kind"] == "union" else pydsdl.StructureType
         inner = cls(
             name=d["name"], version=pydsdl.Version(*d["ver"]), attributes=attrs, deprecated=bool(d.get("deprecated")),
-            fixed_port_id=d.get("port"), source_file_path=def_path(d), has_parent_service=False,
+            fixed_port_id=d.get("port"), source_file_path=def_path(d), has_parent_service=False, doc=doc(),
         )
         built.append(inner if d["sealed"] else pydsdl.DelimitedType(inner, d["extent"]))
     return built
